@@ -25,7 +25,23 @@ static bool load(double r) {
   std::istringstream is(os.str()); is >> RandomTools::DEFAULT_GENERATOR; if (!is) return false;
   std::mt19937 copy = RandomTools::DEFAULT_GENERATOR; std::uniform_real_distribution<double> dis(0, 1); return dis(copy) == r; }
 int main(int argc, char** argv) {
-  Args a(argc, argv); string fn = a.s("fn"); int K = 0; if (sscanf(fn.c_str(), "b_randMultinomial_k%d", &K) != 1) { cout << "no native check for " << fn << endl; return 3; }
+  Args a(argc, argv); string fn = a.s("fn"); int K = 0;
+  { int n = 0, mode = 0; if (sscanf(fn.c_str(), "b_weightedPick_n%d_m%d", &n, &mode) == 2) {
+      vector<int> v; vector<double> w; for (int i = 0; i < n; ++i) { v.push_back((int)a.i32("in_v_" + to_string(i))); w.push_back(a.d("in_w_" + to_string(i))); }
+      if (n == 0) { try { vector<int> e; vector<double> ew; RandomTools::pickOne(e, ew, false); cout << "CONFIRMED: no exception on an empty source\n"; return 1; } catch (bpp::Exception&) { return 0; } }
+      if (!a.has("in_r")) { cout << "the trace does not show the uniform variate\n"; return 3; }
+      double r = a.d("in_r"); if (!(r >= 0 && r < 1) || !load(r)) { cout << "could not load the generator with the variate " << r << endl; return 3; }
+      printf("weighted pickOne (mode %d) of {", mode); for (int i = 0; i < n; ++i) printf("%s%d:%.17g", i ? ", " : "", v[i], w[i]); printf("} with the uniform variate %.17g\n", r);
+      vector<int> v0 = v; vector<double> w0 = w; const vector<int>& cv = v; const vector<double>& cw = w;
+      int e = (mode == 2) ? RandomTools::pickOne(cv, cw) : RandomTools::pickOne(v, w, mode == 1);
+      cout << "picked " << e << "; " << v.size() << " elements and " << w.size() << " weights remain" << endl;
+      bool ok = false; for (int i = 0; i < n; ++i) if (v0[i] == e && w0[i] > 0) ok = true; CHECK_POST(ok);
+      if (mode == 0) { CHECK_POST(v.size() == (size_t)n - 1 && w.size() == (size_t)n - 1);
+        bool paired = false; for (int p = 0; p < n && v.size() == (size_t)n - 1 && w.size() == (size_t)n - 1; ++p) if (v0[p] == e && w0[p] > 0) { bool same = true; for (int i = 0; i < n - 1; ++i) { int src = (i == p ? n - 1 : i); if (v[i] != v0[src] || w[i] != w0[src]) same = false; } if (same) paired = true; }
+        CHECK_POST(paired); }
+      else CHECK_POST(v == v0 && w == w0);
+      return verif_failed; } }
+  if (sscanf(fn.c_str(), "b_randMultinomial_k%d", &K) != 1) { cout << "no native check for " << fn << endl; return 3; }
   vector<double> probs; for (int i = 0; i < K; ++i) probs.push_back(a.d("in_p_" + to_string(i)));
   if (!a.has("in_r")) { cout << "the trace does not show the uniform variate\n"; return 3; }
   double r = a.d("in_r"); if (!(r >= 0 && r < 1) || !load(r)) { cout << "could not load the generator with the variate " << r << endl; return 3; }
